@@ -96,3 +96,18 @@ Fixpoint after_each (ws : list wop) (s : fs) : list rres :=
       let s' := wstep s o in
       (match rstep s' (rstep s' RStart) with RDone x => x | _ => RError end) :: after_each tl s'
   end.
+
+(* two successive readers: the second one starts only after the first has finished.
+   schedule items: 0 = the writer performs its next file operation, 1 = reader 1 steps,
+   2 = reader 2 steps (ignored until reader 1 is done) *)
+Definition rdone (r : rstate) : bool := match r with RDone _ => true | _ => false end.
+Fixpoint exec2 (sched : list nat) (ws : list wop) (s : fs) (r1 r2 : rstate) : fs * rstate * rstate :=
+  match sched with
+  | [] => (s, r1, r2)
+  | O :: tl => match ws with
+               | o :: ws' => exec2 tl ws' (wstep s o) r1 r2
+               | [] => exec2 tl [] s r1 r2
+               end
+  | S O :: tl => exec2 tl ws s (rstep s r1) r2
+  | _ :: tl => if rdone r1 then exec2 tl ws s r1 (rstep s r2) else exec2 tl ws s r1 r2
+  end.
